@@ -61,4 +61,94 @@ class LinkContains(FnContract):
         return [('membership', (result is True or result == True) == (cfg['where'] != 'absent') and isinstance(result, bool))]
 
 
-CONTRACTS = [RemoveComponent(), UpdateID(), ReplaceIdsConcrete(), LinkContains()]
+class BinaryLinkInit(FnContract):
+    property_ids = ('C14',)
+    target = CL + ":BinaryComponentLink.__init__"
+    title = ("the inputs of an arithmetic expression are the inputs of its operands (identifiers and nested expressions), in order, in a FRESH list; "
+             "the operands' own input lists are not modified; numbers contribute nothing; anything else is rejected")
+
+    KINDS = ('cid', 'link', 'number', 'other')
+
+    def configs(self, tier):
+        return [dict(left=a, right=b) for a in self.KINDS for b in self.KINDS]
+
+    def mk(self, kind, tag):
+        if kind == 'cid':
+            return PObj('ComponentID', fields={'tag': tag})
+        if kind == 'link':
+            ids = PList([PObj('ComponentID', fields={'tag': tag + '_in%d' % i}) for i in range(2)])
+            l = PObj('ComponentLink', fields={'_from': ids})
+            l.methods['get_from_ids'] = lambda I, s_: s_.fields['_from']          # returns the link's own list (as the real method does)
+            return l
+        if kind == 'number':
+            return 3
+        return PObj('str-like')
+
+    def inputs(self, cfg, P):
+        left, right = self.mk(cfg['left'], 'L'), self.mk(cfg['right'], 'R')
+        me = PObj('BinaryComponentLink')
+        captured = {}
+
+        def base_init(I, self_, from_, to, using=None, **kw):
+            captured['from'] = from_
+            self_.fields['_from'] = from_
+            self_.fields['_to'] = to
+        me.methods['__init__'] = base_init
+        snap = lambda o: list(o.fields['_from'].items) if isinstance(o, PObj) and '_from' in o.fields else None
+        st = St(me=me, left=left, right=right, captured=captured, l0=snap(left), r0=snap(right), snap=snap)
+        return Inputs([me, left, right, 'OP'], st=st)
+
+    def globals_(self, cfg, st):
+        def b_isinstance(I, v, t):
+            nm = getattr(t, 'name', None) or getattr(t, 'cls', None)
+            if nm == 'Number' or (isinstance(t, PObj) and t.cls == 'Number'):
+                return isinstance(v, (int, float))
+            return isinstance(v, PObj) and v.cls == nm
+
+        def b_super(I, *a):
+            return PObj('super', methods={'__init__': lambda I2, s_, *aa, **kk: I2.call(st.me.methods['__init__'], [st.me] + list(aa), kk)})
+        return {'isinstance': Builtin('isinstance', b_isinstance), 'ComponentID': _CidType(), 'ComponentLink': PType('ComponentLink'),
+                'numbers.Number': PType('Number'), 'super': Builtin('super', b_super), 'BinaryComponentLink': PType('BinaryComponentLink'),
+                'null': 'null', 'glue.core.data.ComponentID': _CidType()}
+
+    raises = {'TypeError': lambda cfg, st: cfg['left'] == 'other' or cfg['right'] == 'other'}
+
+    def finish(self, cfg, st, P, outcome):
+        qn = "BinaryComponentLink.__init__[%s]" % self.cfg_name(cfg)
+        if outcome[0] != 'return':
+            P.check(qn + "/raises:operands-untouched", st.snap(st.left) == st.l0 and st.snap(st.right) == st.r0)
+            return
+        fr = st.captured.get('from')
+        items = fr.items if isinstance(fr, PList) else None
+        exp = []
+        for o, kind in ((st.left, cfg['left']), (st.right, cfg['right'])):
+            if kind == 'cid':
+                exp.append(o)
+            elif kind == 'link':
+                exp.extend(st.l0 if o is st.left else st.r0)
+        P.check(qn + "/ensures:inputs-are-the-operands'-inputs-in-order", items is not None and len(items) == len(exp) and all(a is b for a, b in zip(items, exp)))
+        P.check(qn + "/ensures:own-fresh-list", fr is not getattr(st.left, 'fields', {}).get('_from') and fr is not getattr(st.right, 'fields', {}).get('_from'))
+        P.check(qn + "/frame:operands'-input-lists-unchanged", st.snap(st.left) == st.l0 and st.snap(st.right) == st.r0)
+        P.check(qn + "/ensures:operands-kept", st.me.fields.get('_left') is st.left and st.me.fields.get('_right') is st.right and st.me.fields.get('_op') == 'OP')
+
+
+class _CidType(PType):
+    """ComponentID: usable in isinstance and callable (ComponentID(\"\") creates the placeholder target)"""
+
+    def __init__(self):
+        PType.__init__(self, 'ComponentID')
+
+
+from pyvc.interp import Interp as _I
+_prev_call = _I.call
+
+
+def _call(self, fv, args, kwargs):
+    if isinstance(fv, _CidType):
+        return PObj('ComponentID', fields={'tag': 'placeholder'})
+    return _prev_call(self, fv, args, kwargs)
+
+
+_I.call = _call
+
+CONTRACTS = [RemoveComponent(), UpdateID(), ReplaceIdsConcrete(), LinkContains(), BinaryLinkInit()]
